@@ -38,6 +38,28 @@ def gen_cases(ctx, reps, n_sim):
                 unary = True
             cases.append(D.make_case(rng, d, kind="shape" + ("+unary" if unary else ""),
                                      **D.random_options(rng, ctx.tier == "thorough")))
+    # extreme evidence, logarithmic space only: an undiverged clade next to a heavily mutated lineage, so that
+    # inside + outside of some node is below log(5e-324) at EVERY gridpoint (the weights are far outside the double
+    # range, the posterior is still exact); reference: the same enumeration carried out in log space
+    for _ in range(ctx.n(10, 40)):
+        shape = rng.choice([((), ((), ())), (((), ()), ((), ())), ((), ((), ()), ())])
+        d = D.shape_to_tables(shape, rng, L=1.0)
+        root = len(d["nodes_time"]) - 1
+        counts = [(rng.randint(500, 2000) if (p == root and d["nodes_flags"][c] and k == first_root_sample(d, root)) else 0)
+                  for k, (_l, _r, p, c) in enumerate(d["edges"])]
+        d = D.canon(D.add_mutations(d, counts, rng))
+        # a grid with very fine steps near 0 (where the undiverged clade wants to be) and coarse ones further up
+        # (where the mutated lineage pulls the root): inside and outside then peak at different gridpoints
+        sc = rng.choice([0.5, 1.0, 2.0])
+        xgrid = [round(sc * x, 8) for x in [0.0, 1e-4, 1e-3, 1e-2, 0.05, 0.2, 0.5, 1.0, 2.0, 4.0]]
+        if rng.random() < 0.5:
+            xgrid = [x for k, x in enumerate(xgrid) if k in (0, 1, 3, 5, 6, 7, 8, 9)]
+        c = D.make_case(rng, d, kind="extreme", space=D.LOG, mu=float(rng.choice([300, 1000, 1000, 3000])), grid=xgrid,
+                        eps=rng.choice([1e-6, 1e-8, 1e-3]), offedge=0, exotic=False, ties=False, extreme=True,
+                        **D.random_options(rng, ctx.tier == "thorough"))
+        for u in c["prior"]:
+            c["prior"][u][0] = 0.0       # no prior mass at time 0 for a non-sample node (as in every prior tsdate builds)
+        cases.append(c)
     for _ in range(n_sim):
         d = D.sim_dict(rng, n=rng.randint(2, 6), trees="single")
         if not D.is_single_tree(d):
@@ -47,6 +69,14 @@ def gen_cases(ctx, reps, n_sim):
         cases.append(D.make_case(rng, d, kind="msprime", grid=D.random_grid(rng, gmax=5),
                                  **D.random_options(rng, ctx.tier == "thorough")))
     return cases
+
+
+def first_root_sample(d, root):
+    """index of the first edge from the root to a sample"""
+    for k, (_l, _r, p, c) in enumerate(d["edges"]):
+        if p == root and d["nodes_flags"][c]:
+            return k
+    return -1
 
 
 def api_run(case):
@@ -71,7 +101,11 @@ def oracle_case(ctx, case, stats):
     except Exception as e:
         ctx.oracle_fail("exception:" + type(e).__name__, "inside_outside raised %r on a valid single-tree input" % (e,), rp)
         return
-    want, Z = D.brute_force(case)
+    if case.get("extreme"):
+        want, logZ = D.brute_force_log(case)
+        Z = None
+    else:
+        want, Z = D.brute_force(case)
     worst = 0.0
     for u, row in want.items():
         for x, y in zip(post[u], row):
@@ -80,7 +114,9 @@ def oracle_case(ctx, case, stats):
     if not worst <= TOL:
         ctx.oracle_fail("posterior", "posterior differs from the brute-force marginal by %.3g" % worst,
                         dict(rp, impl={u: post[u] for u in want}, expected=want))
-    if case["space"] == D.LIN:
+    if Z is None:
+        dl = abs(lik - logZ) / (1.0 + abs(logZ))
+    elif case["space"] == D.LIN:
         dl = abs(lik - Z) / Z
     else:
         dl = abs(lik - math.log(Z)) / (1.0 + abs(math.log(Z)))
